@@ -336,13 +336,15 @@ class Chunk:
         data_type = data_types[0]
 
         run_ids = [c.run_id for c in chunks]
+        # Chunks that each span several runs carry run_id None: they are not chunks of one run
+        single_run = len(set(run_ids)) == 1 and run_ids[0] is not None
 
-        if len(set(run_ids)) != 1 and not allow_superrun:
+        if not single_run and not allow_superrun:
             raise ValueError(
                 f"Cannot concatenate {data_type} chunks with different run ids: {run_ids}"
             )
 
-        if len(set(run_ids)) == 1:
+        if single_run:
             run_id = run_ids[0]
             superrun = None
         else:
